@@ -18,7 +18,7 @@
 use full_moon::{
     ast::{Ast, Block, Call, Expression, Prefix, Stmt, Suffix},
     node::Node,
-    tokenizer::{TokenReference, TokenType},
+    tokenizer::{Token, TokenKind, TokenReference, TokenType},
 };
 
 use crate::{
@@ -190,7 +190,7 @@ pub(crate) fn sort_requires(ctx: &Context, input_ast: Ast) -> Ast {
                 // is appended to the new statement
                 let leading_trivia = match list.first_mut() {
                     Some((_, (Stmt::LocalAssignment(local_assignment), _))) => {
-                        let trivia = local_assignment
+                        let trivia: Vec<Token> = local_assignment
                             .local_token()
                             .leading_trivia()
                             .cloned()
@@ -211,6 +211,21 @@ pub(crate) fn sort_requires(ctx: &Context, input_ast: Ast) -> Ast {
                 // Mutate the first element with our leading trivia
                 match list.first_mut() {
                     Some((_, (Stmt::LocalAssignment(local_assignment), _))) => {
+                        // Any comments in front of this statement itself (e.g. `--[[ comment ]] local x = ...`) stay with it
+                        let mut leading_trivia = leading_trivia;
+                        leading_trivia.extend(
+                            local_assignment
+                                .local_token()
+                                .leading_trivia()
+                                .filter(|token| {
+                                    matches!(
+                                        token.token_kind(),
+                                        TokenKind::SingleLineComment | TokenKind::MultiLineComment
+                                    )
+                                })
+                                .cloned(),
+                        );
+
                         *local_assignment = local_assignment
                             .update_leading_trivia(FormatTriviaType::Replace(leading_trivia))
                     }
